@@ -145,6 +145,51 @@ H(h_c16_v6_iter) {
     vp_assert(it == e, "IPv6 iteration ends right after the last address");
     vp_witness();
 }
+// carries that ripple through every byte up to (but not out of) the first one: xx:ff:..:ff:lo .. (xx+1):00:..:0n
+H(h_c16_v6_iter_carry) {
+    uint32_t k = vp_param(0);
+    uint8_t b0 = vp_u8(), lo = vp_u8();
+    vp_assume(b0 != 0xff && lo >= 0xfc);
+    uint8_t fb[16], lb[16];
+    fb[0] = b0; for (int i = 1; i < 15; ++i) fb[i] = 0xff; fb[15] = lo;
+    uint32_t end = (uint32_t)lo + k;                       // low byte + k, possibly carrying through bytes 14..1 into byte 0
+    if (end > 0xff) { lb[0] = (uint8_t)(b0 + 1); for (int i = 1; i < 15; ++i) lb[i] = 0; lb[15] = (uint8_t)(end - 0x100); }
+    else { lb[0] = b0; for (int i = 1; i < 15; ++i) lb[i] = 0xff; lb[15] = (uint8_t)end; }
+    IPv6Range r = IPv6Range(IPv6Address(fb), IPv6Address(lb));
+    IPv6Range::const_iterator it = r.begin(), e = r.end();
+    for (uint32_t n = 0; n <= k; ++n) {
+        vp_assert(it != e, "IPv6 iteration across a full carry does not end before the last address");
+        uint8_t want[16]; uint32_t v = (uint32_t)lo + n;
+        if (v > 0xff) { want[0] = (uint8_t)(b0 + 1); for (int i = 1; i < 15; ++i) want[i] = 0; want[15] = (uint8_t)(v - 0x100); }
+        else { want[0] = b0; for (int i = 1; i < 15; ++i) want[i] = 0xff; want[15] = (uint8_t)v; }
+        vp_assert(*it == IPv6Address(want), "IPv6 iteration across a full carry visits the addresses in increasing order");
+        ++it;
+    }
+    vp_assert(it == e, "IPv6 iteration across a full carry ends right after the last address");
+    vp_witness();
+}
+H(h_c16_hw_iter_carry) {
+    uint32_t k = vp_param(0);
+    uint8_t b0 = vp_u8(), lo = vp_u8();
+    vp_assume(b0 != 0xff && lo >= 0xfc);
+    uint8_t fb[6], lb[6];
+    fb[0] = b0; for (int i = 1; i < 5; ++i) fb[i] = 0xff; fb[5] = lo;
+    uint32_t end = (uint32_t)lo + k;
+    if (end > 0xff) { lb[0] = (uint8_t)(b0 + 1); for (int i = 1; i < 5; ++i) lb[i] = 0; lb[5] = (uint8_t)(end - 0x100); }
+    else { lb[0] = b0; for (int i = 1; i < 5; ++i) lb[i] = 0xff; lb[5] = (uint8_t)end; }
+    AddressRange<HWAddress<6> > r((HWAddress<6>(fb)), (HWAddress<6>(lb)));
+    AddressRange<HWAddress<6> >::const_iterator it = r.begin(), e = r.end();
+    for (uint32_t n = 0; n <= k; ++n) {
+        vp_assert(it != e, "hardware-address iteration across a full carry does not end before the last address");
+        uint8_t want[6]; uint32_t v = (uint32_t)lo + n;
+        if (v > 0xff) { want[0] = (uint8_t)(b0 + 1); for (int i = 1; i < 5; ++i) want[i] = 0; want[5] = (uint8_t)(v - 0x100); }
+        else { want[0] = b0; for (int i = 1; i < 5; ++i) want[i] = 0xff; want[5] = (uint8_t)v; }
+        vp_assert(*it == HWAddress<6>(want), "hardware-address iteration across a full carry visits the addresses in increasing order");
+        ++it;
+    }
+    vp_assert(it == e, "hardware-address iteration across a full carry ends right after the last address");
+    vp_witness();
+}
 // ---- hardware addresses
 H(h_c16_hw_order) {
     uint8_t a[6], b[6];
